@@ -6,8 +6,13 @@
 //! reference model; per-state checks (size_hint, count of a clone, stickiness
 //! of None) run when a state is generated.
 
+#[path = "../ss/alloc.rs"]
+mod alloc;
 mod bytes;
 mod subs;
+
+#[global_allocator]
+static GLOBAL: alloc::Counting = alloc::Counting;
 
 use mcore::{Args, Report};
 use serde_json::{json, Value};
